@@ -329,7 +329,7 @@ def Msg.isOwedTerminal : Msg → Bool
 /-- free inputs of the application (`call`, `rsCall`, `clCall`, signals handed to a writer) and of the
     peer (arbitrary stream items, unsolicited server messages) -/
 def Label.isInput : Label → Bool
-  | .call .. | .rsCall | .clCall | .wRecv .. | .envPut _ => true
+  | .call .. | .rsCall | .clCall | .wRecv .. | .envPut _ | .envLate _ => true
   | .sSend m => !m.isOwedTerminal
   | _ => false
 
